@@ -15,6 +15,26 @@ NOTES = {
     "C10-m5": "Caught by C17 (two-call history uncompact2;uncompact2 across the aperture change, solver-decided).",
     "C06-m6": "Caught by C17 (cell_to_children / cell_to_children2 histories on the world cell).",
     "C08-m6": "Caught by C08 (two sibling groups of different faces in one input) and by C17 (compact;compact history).",
+    "C20-m6": "Caught by C17 (children histories world / res-0 / res-1 to one target; needs the solver-decided dict lookup for a symbolic probe "
+              "key against a concrete stored key).",
+    "C19-m4": "MISSED (inconclusive). '%x%08x' % (...) formats through the C-level str.__mod__, which concretises the proxy; float division of a "
+              "64-bit value additionally needs the FP theory.",
+    "C19-m5": "Caught by C19 after short symbolic strings were made iterable as real characters (forking over the feasible characters for length <= 2).",
+    "C19-m6": "Caught by C19 after zero-padded strings of length 17, 18, 20 were added to the parse harness (the first version stopped at 16 digits).",
+    "C15-m5": "MISSED (inconclusive). The pole snap branches on the angle itself; the contracts that tie the angle to its sine/cosine make the nlsat "
+              "queries run into the time limit.",
+    "C15-m6": "Caught by C17 (authalic singleton two-call history, symbolic angles).",
+    "C02-m4": "Caught by C17 (origin-table two-call histories).",
+    "C02-m6": "MISSED by design: the pole snap keeps the coordinate inside the ranges; that the centre lies strictly inside its cell and maps back "
+              "to it needs the numeric projection (the part of C02 that is not decided).",
+    "C16-m4": "MISSED (inconclusive). The shared default-argument list is discovered and havocked, but symbolic flips inside the Hilbert digit loop "
+              "of a full lonlat_to_cell run do not finish within the job budget.",
+    "C16-m6": "MISSED (inconclusive). The in-place remove/insert on the shared search list is flagged (containers must be insert-only / not reordered "
+              "at run time) but the replay scheduler with the default interferer did not reproduce a wrong result.",
+    "C17-m4": "MISSED. Tie-break between two exactly equidistant face centres decided by the previous call: needs query points on a measure-zero "
+              "set that neither the solver (haversine of computed values) nor the random long history reaches.",
+    "C17-m5": "Caught by C10 (a resolution-0 cell and the colliding resolution-1 cell in one uncompact list).",
+    "C17-m6": "Caught by C17 (history: a call that fails half way, then a valid call; solver-decided on symbolic cells).",
     "C17-m2": "MISSED. 'same face as last time' fast path with a threshold 0.07 degrees too wide: history-dependent only for query "
               "points in an 8 km sliver just outside a face edge at resolution >= 12; the long-history differential (random points) "
               "does not hit the sliver and the numeric face test is outside what the solver can decide (haversine on computed values).",
